@@ -145,20 +145,26 @@ def configs(ctx):
     quick = ctx.tier == 'quick'
     out = []
     # exhaustive small scope
-    nmax_all = 2 if quick else 3
+    nmax_all = 1 if quick else 3
     for n in range(0, nmax_all + 1):
         for behs in itertools.product(P.BEHS, repeat=n):
             for conc in range(1, max(n, 1) + 1):
                 for ff in (False, True):
                     for v in VARIANTS:
                         out.append((list(behs), conc, ff, v, 100, False, 'all'))
-    if not quick:
+    if quick:
+        for behs in itertools.product(P.BEHS, repeat=2):
+            for conc in (1, 2):
+                for ff in (False, True):
+                    for v in VARIANTS:
+                        out.append((list(behs), conc, ff, v, 100, False, 2))
+    else:
         for behs in itertools.product(P.BEHS, repeat=4):
             for conc in range(1, 5):
                 for ff in (False, True):
                     for v in VARIANTS:
                         out.append((list(behs), conc, ff, v, 100, False, 2))
-    for _ in range(260 if quick else 3000):
+    for _ in range(120 if quick else 3000):
         n = rng.randint(3, 6)
         behs = [rng.choice(P.BEHS + ['BLaterOk', 'BLaterErr', 'BLaterOk']) for _ in range(n)]
         out.append((behs, rng.randint(1, n), rng.random() < 0.5, rng.choice(VARIANTS), rng.choice((100, 100, 1, 2, 3)), rng.random() < 0.3,
@@ -216,7 +222,7 @@ def run(ctx):
         cases.append(P.g_case(r))
         meta.append(r)
     try:
-        bad = ctx.coq_filter(['Concurrent'], '(fun b : bool => b)', cases, shard=250)
+        bad = ctx.coq_filter(['Concurrent'], '(fun b : bool => b)', cases, shard=250, prelude='Local Open Scope nat_scope.')
         for i in bad[:10]:
             r = meta[i]
             ctx.disagreement('model-vs-impl.' + r.variant, 'executor differs from Model/Concurrent.v: %s n=%d conc=%d ff=%s behs=%r history=%s' % (
